@@ -253,7 +253,7 @@ def m_foreign_attrs(spec, rng):
     def fn(e):
         if e[1] in (L.TEXTNS, L.TABLENS, L.DRAWNS) and rng.random() < 0.3:
             at = list(e[3])
-            if rng.random() < 0.6: at.append((u'', u'data-x', rng.choice([u'1', u'a b', u'<&>"', u''])))
+            if rng.random() < 0.6: at.append((u'', u'data-x', rng.choice([u'1', u'a b', u'<&>"', u'', u'"both\' kinds"'])))
             if rng.random() < 0.6: at.append((FOREIGN, u'note', rng.choice([u'v', u'tab\there', u'é'])))
             kids = list(e[4])
             if rng.random() < 0.3 and e[2] in ('p', 'h', 'span'):
@@ -443,6 +443,38 @@ def m_object_renumber(spec, rng):
             'members': [(rn(n), b) for n, b in s['members']]}
 
 
+def m_attr_both_quotes(spec, rng):
+    """attribute values that contain BOTH kinds of quotation mark (formulas, string values, names): the writer has to
+    escape one of them"""
+    vals = [u'She said "don\'t"', u'of:=IF([.A1]="it\'s";1;2)', u'"\'', u'\'"\'"', u'a & "b" <c> \'d\'']
+    n = {'k': 0}
+    def fn(e):
+        if n['k'] < 6 and e[1] in (L.TEXTNS, L.TABLENS, L.DRAWNS) and rng.random() < 0.5:
+            n['k'] += 1
+            at = [a for a in e[3]]
+            at.append((u'', u'title', rng.choice(vals)))
+            # and an existing free-text attribute of the vocabulary, if there is one
+            at = [(a[0], a[1], a[2] + u' ' + rng.choice(vals)) if (a[0], a[1]) in ((L.TABLENS, u'name'), (L.DRAWNS, u'name'), (L.TEXTNS, u'name'), (L.OFFICENS, u'string-value'), (L.TABLENS, u'formula')) else a for a in at]
+            return ('E', e[1], e[2], at, e[4])
+        return e
+    def edit(t):
+        t2 = _map_tree(t, fn)
+        if n['k'] == 0:
+            done = {'d': False}
+            def add(e):
+                if not done['d'] and e[0] == 'E' and e[4]:
+                    done['d'] = True
+                    return ('E', e[1], e[2], list(e[3]) + [(u'', u'title', vals[0])], e[4])
+                return e
+            t2 = _map_tree(t2, add)
+        return t2
+    s = spec
+    for part in (u'content.xml', u'styles.xml', u'settings.xml', u'meta.xml'):
+        n['k'] = 0
+        s = _edit_body(s, edit, part=part)
+    return s
+
+
 def m_class_names(spec, rng):
     """text:class-names / draw:class-names with two names (white-space separated list, schema type styleNameRefs)"""
     def fn(e):
@@ -508,7 +540,7 @@ MUTATORS = [
     ('fonts-in-content', m_fonts_moved_to_content), ('name-with-space', m_name_with_space),
     ('text-mentions-xmlns', m_text_mentions_xmlns), ('object-renumber', m_object_renumber),
     ('text-mentions-xmlns-blank', m_text_mentions_xmlns_blank), ('inline-document', m_inline_document),
-    ('class-names', m_class_names), ('converter-rejects', m_converter_rejects), ('cdata', m_cdata), ('pretty-print', m_pretty_print),
+    ('attr-both-quotes', m_attr_both_quotes), ('class-names', m_class_names), ('converter-rejects', m_converter_rejects), ('cdata', m_cdata), ('pretty-print', m_pretty_print),
 ]
 
 
